@@ -6,7 +6,8 @@ RULE = ("random well-conditioned curves (degree <= 3, knot spacing >= 1/20 of th
         "evaluation, basis functions, knot insertion and removal, degree elevation and reduction, split/join, + * /, fit_curve, fit_points, default "
         "integration — three times: Fraction data (with int control points / weights in a share of cases, numerators and denominators above 2^64 in "
         "another), python floats, numpy float64; plus a control-point type that supports only point+point and scalar*point for evaluation, insertion, "
-        "elevation and splitting.  Non-trivial: an interior knot or degree >= 2; distinct = distinct (curve, pipeline arguments).")
+        "elevation and splitting.  Non-trivial: an interior knot or degree >= 2; distinct = distinct (curve, pipeline arguments)."
+        " Also: exact-only cases of degree 4..8 (least squares and quadrature beyond the tabulated sizes).")
 EXPLANATION = ("L2/L3: for the Fraction run every output is type-checked (no float anywhere) and compared for exact equality with the Lean model's "
                "output (which the theorems of C01-C14 tie to the mathematical definition); the float runs are compared with the exact outputs to "
                "relative 1e-9.")
